@@ -122,6 +122,8 @@ def seq_ops(job):
 def contents(seed, n):
     pats = [bytes(n), b"\xff" * n, filler(seed, f"c06-p{n}", n), b"\x80" + bytes(n - 1), bytes(n - 1) + b"\x01",
             b"\x01" + bytes(n - 1), bytes(n - 1) + b"\x80", filler(seed + 1, f"c06-q{n}", n)]
+    from vf.runner import lookalikes
+    pats += lookalikes(n)[:3]
     if n <= 4:
         for i in range(n * 8):
             b = bytearray(n)
